@@ -1,318 +1,165 @@
-import UgoVerif.Proofs.Shift
+import UgoVerif.Proofs.ShiftThrow
 /-
-  C14, `frame_shift`: the covered opcodes preserve the offset relation `Sh` (Proofs/Shift.lean).
+  C14, `frame_shift`: the opcodes that touch neither the frame stack nor the handler stack preserve the
+  offset relation `Sh` (Proofs/Shift.lean).
 -/
 set_option linter.unusedSimpArgs false
 set_option linter.unusedVariables false
+set_option maxHeartbeats 1600000
 namespace UgoVerif.Proofs.Shift
 open UgoVerif UgoVerif.Go UgoVerif.VM
 
-/-- after one covered instruction: both VMs continue in related states, or the child's loop
-    returns with `vm.err` set (an error nobody in the callee handles: the child's `Run` returns it) -/
-def PostC (bp k L : Nat) (r r' : Ctl) (s t : State) : Prop :=
-  (r = .next ∧ r' = .next ∧ ShB bp k L s t) ∨ (r = .ret ∧ s.err ≠ none)
-
 section
-variable {bp k N L : Nat} {a : Int}
+variable {T0 : State} {bp k d H N : Nat} {a : Int}
 
-theorem sh_next (ha : a ≤ N) (hL : L ≤ N) :
-    RelS (Sh bp k N a) (PostC bp k L) (pure Ctl.next) (pure Ctl.next) :=
-  RelS.pure (fun s t h => Or.inl ⟨rfl, rfl, N, a, h, ha, hL⟩)
-
-theorem sh_pushV (v : V) (ha : a ≤ N) :
-    RelS (Sh bp k N a) (PQ (fun _ _ => True) (Sh bp k (max N (a.toNat + 1)) (a + 1))) (pushV v) (pushV v) := by
-  unfold pushV
-  refine RelS.bindV sh_getSp ?_
-  rintro _ _ ⟨rfl, rfl⟩
-  refine RelS.bindV (sh_stackSet _ _ _ rfl (max N (a.toNat + 1)) (by intro h0; omega)) ?_
-  intro _ _ _
-  exact sh_setSp _ _ (by omega)
-
-
-/-! ### an error nobody in the callee handles -/
-
-theorem foldl_fuel_ge (g : Nat → Frame → Nat) (hg : ∀ n f, n ≤ g n f) (l : List Frame) (n : Nat) : n ≤ l.foldl g n := by
-  induction l generalizing n with
-  | nil => exact Nat.le_refl _
-  | cons f r ih => exact Nat.le_trans (hg n f) (ih _)
-
-/-- `failWith` in the child (frame 0 is the only frame, it has no handler): the error is not
-    handled, `vm.err` is set and the loop returns -/
-theorem failWith_child (e : OpErr) (s : State) (hc : s.curFrame = 0) (hfi : s.frameIndex = 1)
-    (hh : (s.frames[0]!).handlers = none) :
-    ∀ r s', exec (failWith e) s = (.ok r, s') → r = .ret ∧ s'.err ≠ none := by
-  intro r s' h
-  simp only [failWith, throwGenErr, exec_bind] at h
-  have l1 := (foot_rtErrOfOpErr e).loc s
-  rcases e1 : exec (rtErrOfOpErr e) s with ⟨r1, s1⟩
-  rw [e1] at h l1
-  simp only at l1
-  cases r1 with
-  | error x => simp at h
-  | ok ra =>
-    simp only at h
-    have hc1 : s1.curFrame = 0 := by rw [l1]; exact hc
-    have hfi1 : s1.frameIndex = 1 := by rw [l1]; exact hfi
-    have hh1 : (s1.frames[0]!).handlers = none := by rw [l1]; exact hh
-    have ef : ∃ n, exec throwFuel s1 = (.ok (n + 1), s1) := by
-      have : exec throwFuel s1 = (.ok (s1.frames.foldl (fun n f => n + (match f.handlers with | some hs => hs.length | none => 0) + 1) 4), s1) := rfl
-      rw [this]
-      have hge : 4 ≤ s1.frames.foldl (fun n f => n + (match f.handlers with | some hs => hs.length | none => 0) + 1) 4 := by
-        rw [← Array.foldl_toList]
-        exact foldl_fuel_ge _ (fun n f => by omega) _ _
-      exact ⟨s1.frames.foldl (fun n f => n + (match f.handlers with | some hs => hs.length | none => 0) + 1) 4 - 1, by
-        congr 2; omega⟩
-    obtain ⟨n, ef⟩ := ef
-    rw [ef] at h
-    simp only at h
-    have et : exec (throwF (n + 1) ra) s1 = (.ok (some ra), s1) := by
-      unfold throwF
-      have hcf : exec curFrame s1 = (.ok (s1.frames[0]!), s1) := by
-        have : exec curFrame s1 = (.ok (s1.frames[s1.curFrame]!), s1) := rfl
-        rw [this, hc1]
-      have hnh : hasHandler (s1.frames[0]!) = false := by simp [hasHandler, hh1]
-      simp only [exec_bind, hcf, hnh, Bool.false_eq_true, if_false, exec_getS, hfi1]
-      have : ((1 : Int) - 1).toNat = 0 := by decide
-      rw [this]
-      simp [searchFrames, exec_pure, exec_bind]
-    rw [et] at h
-    simp only [exec_bind, exec_modS, exec_pure, Prod.mk.injEq, Except.ok.injEq] at h
-    obtain ⟨rfl, rfl⟩ := h
-    exact ⟨rfl, by simp⟩
-
-theorem sh_failWith (e : OpErr) : RelS (Sh bp k N a) (PostC bp k L) (failWith e) (failWith e) := by
-  intro s t h r s' r' t' h1 h2
-  have := failWith_child e s h.curS h.fiS h.frame.hS r s' h1
-  exact Or.inr this
-
-/-! ### more primitive rules -/
-
-/-- the local-variable operand of the current instruction is below `L` (= `NumLocals`) -/
-def OpLt (L : Nat) (s : State) : Prop := ∀ idx s', exec (opnd1 1) s = (.ok idx, s') → idx < L
-
-theorem sh_opnd1_lt :
-    RelS (fun s t => Sh bp k N a s t ∧ OpLt L s) (PQ (fun x y => x = y ∧ x < L) (Sh bp k N a)) (opnd1 1) (opnd1 1) := by
-  intro s t h x s' y t' h1 h2
-  have := sh_foot (foot_opnd1 1) s t h.1 x s' y t' h1 h2
-  exact ⟨⟨this.1, h.2 x s' h1⟩, this.2⟩
-
-theorem sh_getS : RelS (Sh bp k N a) (PQ (Sh bp k N a) (Sh bp k N a)) getS getS := by
-  intro s t h x s' y t' h1 h2
-  simp only [exec_getS, Prod.mk.injEq, Except.ok.injEq] at h1 h2
-  obtain ⟨rfl, rfl⟩ := h1
-  obtain ⟨rfl, rfl⟩ := h2
-  exact ⟨h, h⟩
-
-theorem sh_setModule (i : Nat) (v : V) :
-    RelS (Sh bp k N a) (PQ (fun _ _ => True) (Sh bp k N a))
-      (modS fun s => { s with modules := s.modules.set! i v }) (modS fun s => { s with modules := s.modules.set! i v }) := by
-  intro s t h x s' y t' h1 h2
-  simp only [exec_modS, Prod.mk.injEq, Except.ok.injEq] at h1 h2
-  obtain ⟨_, rfl⟩ := h1
-  obtain ⟨_, rfl⟩ := h2
-  exact ⟨trivial, { h with modules := by simp [h.modules], shapeS := ⟨h.shapeS.stack, h.shapeS.frames⟩,
-                            shapeT := ⟨h.shapeT.stack, h.shapeT.frames⟩ }⟩
-
-theorem exec_stackSlice' (lo hi : Int) (s : State) :
-    exec (stackSlice lo hi) s =
-      if lo < 0 || hi > (stackSize : Int) || lo > hi then
-        (.error (.panic s!"runtime error: slice bounds out of range [{lo}:{hi}]"), s)
-      else (.ok ((s.stack.toList.drop lo.toNat).take (hi - lo).toNat), s) := by
-  unfold stackSlice
-  split
-  · rfl
-  · simp only [exec_bind, exec_getS, exec_pure]
-
-theorem sh_stackSlice (lo hi lo' hi' : Int) (h1 : lo' = lo + bp) (h2 : hi' = hi + bp) (hN : hi ≤ N) :
-    RelS (Sh bp k N a) (PQ Eq (Sh bp k N a)) (stackSlice lo hi) (stackSlice lo' hi') := by
-  intro s t h x s' y t' e1 e2
-  rw [exec_stackSlice'] at e1 e2
-  by_cases hb : (decide (lo < 0) || decide (hi > (stackSize : Int)) || decide (lo > hi)) = true
-  · rw [if_pos hb] at e1; simp at e1
-  · rw [if_neg hb] at e1
-    by_cases hb' : (decide (lo' < 0) || decide (hi' > (stackSize : Int)) || decide (lo' > hi')) = true
-    · rw [if_pos hb'] at e2; simp at e2
-    · rw [if_neg hb'] at e2
-      simp only [Prod.mk.injEq, Except.ok.injEq] at e1 e2
-      obtain ⟨rfl, rfl⟩ := e1
-      obtain ⟨rfl, rfl⟩ := e2
-      simp only [Bool.or_eq_true, decide_eq_true_eq, not_or, Int.not_lt, ge_iff_le, Int.not_le] at hb hb'
-      refine ⟨?_, h⟩
-      apply List.ext_getElem?
-      intro i
-      have e : (hi' - lo').toNat = (hi - lo).toNat := by omega
-      rw [e]
-      simp only [List.getElem?_take, List.getElem?_drop]
-      by_cases hlt : i < (hi - lo).toNat
-      · simp only [hlt, if_true]
-        have hs := h.stack (lo.toNat + i) (by omega)
-        have hsz1 := h.shapeS.stack
-        have hsz2 := h.shapeT.stack
-        have l1 : lo.toNat + i < s.stack.size := by rw [hsz1]; omega
-        have l2 : lo'.toNat + i < t.stack.size := by rw [hsz2]; omega
-        have e' : bp + (lo.toNat + i) = lo'.toNat + i := by omega
-        rw [e', getElem!_pos s.stack _ l1, getElem!_pos t.stack _ l2] at hs
-        simp only [Array.getElem?_toList, Array.getElem?_eq_getElem l1, Array.getElem?_eq_getElem l2, hs]
-      · simp only [hlt, if_false]
-
-theorem sh_stackSet_grow (i j : Int) (v : V) (hj : j = i + bp) (hi : i ≤ N) :
-    RelS (Sh bp k N a) (PQ (fun _ _ => True) (Sh bp k (max N (i.toNat + 1)) a)) (stackSet i v) (stackSet j v) :=
-  sh_stackSet i j v hj _ (by intro h0; omega)
-
-/-! ### automation -/
-
-syntax "sh_prim" : tactic
-syntax "sh1" : tactic
-syntax "shrun" : tactic
-macro_rules | `(tactic| sh_prim) => `(tactic| first
-  | exact sh_getSp
-  | exact sh_setSp _ _ (by omega)
-  | exact sh_stackGet _ _ (by omega) (by omega)
-  | exact sh_stackSet_grow _ _ _ (by omega) (by omega)
-  | exact sh_stackSet _ _ _ (by omega) _ (fun _ => Or.inl (Nat.le_refl _))
-  | exact sh_stackSlice _ _ _ _ (by omega) (by omega) (by omega)
-  | exact sh_pushV _ (by omega)
-  | exact sh_setIp _
-  | exact sh_bumpIp _
-  | exact sh_setModule _ _
-  | (apply sh_foot; foot; all_goals fail "foot: stuck")
-  | (refine RelS.forIn_upto (VR := Eq) _ _ _ _ _ rfl ?_
-     intro i__ hi__ b__ b'__ hb__
-     subst hb__
-     shrun)
-  | (refine RelS.forIn_upto (VR := fun _ _ => True) _ _ _ _ _ trivial ?_
-     intro i__ hi__ b__ b'__ hb__
-     shrun))
-
-macro_rules | `(tactic| sh1) => `(tactic| first
-  | exact sh_failWith _
-  | exact sh_next (by omega) (by omega)
-  | exact RelS.errL _
-  | exact RelS.pure (fun _ _ h => ⟨Or.inl ⟨_, _, rfl, rfl, rfl⟩, Sh.mono h (by omega)⟩)
-  | exact RelS.pure (fun _ _ h => ⟨Or.inl ⟨_, _, rfl, rfl, trivial⟩, Sh.mono h (by omega)⟩)
-  | ((with_reducible apply RelS.bindV)
-     · sh_prim
-     intro x__ y__ h__
-     first
-       | (obtain ⟨h1__, h2__⟩ := h__; subst h1__; subst h2__)
-       | subst h__
-       | skip)
-  | ((with_reducible apply RelS.bindV)
-     · exact sh_curFrame
-     intro f__ g__ h__
-     obtain ⟨fn1__, fr1__, ip1__, bp1__, hs1__, d1__⟩ := f__
-     obtain ⟨fn2__, fr2__, ip2__, bp2__, hs2__, d2__⟩ := g__
-     obtain ⟨e1__, e2__, e3__, e4__, e5__, e6__, e7__⟩ := h__
-     simp only at e1__ e2__ e3__ e4__ e5__ e6__ e7__
-     subst e1__ e2__ e3__ e4__ e5__ e6__ e7__
-     dsimp only)
-  | ((with_reducible apply RelS.bindV)
-     · exact sh_getS
-     intro x__ y__ h__
-     have hm__ := h__.modules
-     have hg__ := h__.globals
-     simp only [hm__, hg__]
-     clear hm__ hg__ h__)
-  | apply RelS.ite
-  | split
-  | simp only [bind_assoc, pure_bind]
-  | dsimp only)
-
-macro_rules | `(tactic| shrun) => `(tactic| repeat sh1)
-
-theorem sh_execPop (ha : a ≤ N) (hL : L ≤ N) : RelS (Sh bp k N a) (PostC bp k L) execPop execPop := by
+theorem sh_execPop (ha : a ≤ N) (hH : H ≤ N) : RelS (Sh T0 bp k d H N a) (PostC T0 bp k) execPop execPop := by
   unfold execPop; shrun
-theorem sh_execNull (ha : a ≤ N) (hL : L ≤ N) : RelS (Sh bp k N a) (PostC bp k L) execNull execNull := by
+theorem sh_execNull (ha : a ≤ N) (hH : H ≤ N) : RelS (Sh T0 bp k d H N a) (PostC T0 bp k) execNull execNull := by
   unfold execNull; shrun
-theorem sh_execTrue (ha : a ≤ N) (hL : L ≤ N) : RelS (Sh bp k N a) (PostC bp k L) execTrue execTrue := by
+theorem sh_execTrue (ha : a ≤ N) (hH : H ≤ N) : RelS (Sh T0 bp k d H N a) (PostC T0 bp k) execTrue execTrue := by
   unfold execTrue; shrun
-theorem sh_execFalse (ha : a ≤ N) (hL : L ≤ N) : RelS (Sh bp k N a) (PostC bp k L) execFalse execFalse := by
+theorem sh_execFalse (ha : a ≤ N) (hH : H ≤ N) : RelS (Sh T0 bp k d H N a) (PostC T0 bp k) execFalse execFalse := by
   unfold execFalse; shrun
-theorem sh_execNoOp (ha : a ≤ N) (hL : L ≤ N) : RelS (Sh bp k N a) (PostC bp k L) execNoOp execNoOp := by
+theorem sh_execNoOp (ha : a ≤ N) (hH : H ≤ N) : RelS (Sh T0 bp k d H N a) (PostC T0 bp k) execNoOp execNoOp := by
   unfold execNoOp; shrun
-theorem sh_execConstant (ha : a ≤ N) (hL : L ≤ N) : RelS (Sh bp k N a) (PostC bp k L) execConstant execConstant := by
+theorem sh_execConstant (ha : a ≤ N) (hH : H ≤ N) : RelS (Sh T0 bp k d H N a) (PostC T0 bp k) execConstant execConstant := by
   unfold execConstant; shrun
-theorem sh_execGetBuiltin (ha : a ≤ N) (hL : L ≤ N) : RelS (Sh bp k N a) (PostC bp k L) execGetBuiltin execGetBuiltin := by
+theorem sh_execGetBuiltin (ha : a ≤ N) (hH : H ≤ N) : RelS (Sh T0 bp k d H N a) (PostC T0 bp k) execGetBuiltin execGetBuiltin := by
   unfold execGetBuiltin; shrun
-theorem sh_execJump (ha : a ≤ N) (hL : L ≤ N) : RelS (Sh bp k N a) (PostC bp k L) execJump execJump := by
+theorem sh_execJump (ha : a ≤ N) (hH : H ≤ N) : RelS (Sh T0 bp k d H N a) (PostC T0 bp k) execJump execJump := by
   unfold execJump; shrun
-theorem sh_execJumpFalsy (ha : a ≤ N) (hL : L ≤ N) : RelS (Sh bp k N a) (PostC bp k L) execJumpFalsy execJumpFalsy := by
+theorem sh_execJumpFalsy (ha : a ≤ N) (hH : H ≤ N) : RelS (Sh T0 bp k d H N a) (PostC T0 bp k) execJumpFalsy execJumpFalsy := by
   unfold execJumpFalsy; shrun
-theorem sh_execAndJump (ha : a ≤ N) (hL : L ≤ N) : RelS (Sh bp k N a) (PostC bp k L) execAndJump execAndJump := by
+theorem sh_execAndJump (ha : a ≤ N) (hH : H ≤ N) : RelS (Sh T0 bp k d H N a) (PostC T0 bp k) execAndJump execAndJump := by
   unfold execAndJump; shrun
-theorem sh_execOrJump (ha : a ≤ N) (hL : L ≤ N) : RelS (Sh bp k N a) (PostC bp k L) execOrJump execOrJump := by
+theorem sh_execOrJump (ha : a ≤ N) (hH : H ≤ N) : RelS (Sh T0 bp k d H N a) (PostC T0 bp k) execOrJump execOrJump := by
   unfold execOrJump; shrun
-theorem sh_execEqual (F : FloatOps) (op : Nat) (ha : a ≤ N) (hL : L ≤ N) :
-    RelS (Sh bp k N a) (PostC bp k L) (execEqual F op) (execEqual F op) := by
+theorem sh_execEqual (F : FloatOps) (op : Nat) (ha : a ≤ N) (hH : H ≤ N) :
+    RelS (Sh T0 bp k d H N a) (PostC T0 bp k) (execEqual F op) (execEqual F op) := by
   unfold execEqual; shrun
-theorem sh_execBinaryOp (F : FloatOps) (ha : a ≤ N) (hL : L ≤ N) :
-    RelS (Sh bp k N a) (PostC bp k L) (execBinaryOp F) (execBinaryOp F) := by
+theorem sh_execBinaryOp (F : FloatOps) (ha : a ≤ N) (hH : H ≤ N) :
+    RelS (Sh T0 bp k d H N a) (PostC T0 bp k) (execBinaryOp F) (execBinaryOp F) := by
   unfold execBinaryOp; shrun
-theorem sh_execUnary (F : FloatOps) (ha : a ≤ N) (hL : L ≤ N) :
-    RelS (Sh bp k N a) (PostC bp k L) (execUnary F) (execUnary F) := by
+theorem sh_execUnary (F : FloatOps) (ha : a ≤ N) (hH : H ≤ N) :
+    RelS (Sh T0 bp k d H N a) (PostC T0 bp k) (execUnary F) (execUnary F) := by
   unfold execUnary; shrun
 
 
-theorem sh_execGetLocal (ha : a ≤ N) (hL : L ≤ N) :
-    RelS (fun s t => Sh bp k N a s t ∧ OpLt L s) (PostC bp k L) execGetLocal execGetLocal := by
+theorem sh_execGetLocal (ha : a ≤ N) (hH : H ≤ N) :
+    RelS (fun s t => Sh T0 bp k d H N a s t ∧ OpLt s) (PostC T0 bp k) execGetLocal execGetLocal := by
   unfold execGetLocal
-  refine RelS.bindV sh_opnd1_lt ?_
-  intro idx _ ⟨h1, hidx⟩
+  refine RelS.bind sh_opnd1_lt ?_
+  intro idx idx'
+  refine RelS.pre_and fun h1 => ?_
   subst h1
+  refine RelS.bindV (sh_curFrame_lt _) ?_
+  rintro ⟨fn1, fr1, ip1, bp1, hs1, d1⟩ ⟨fn2, fr2, ip2, bp2, hs2, d2⟩ ⟨⟨e1, e2, e3, e4, e5, e6⟩, hlt⟩
+  simp only at e1 e2 e3 e4 e5 e6 hlt
+  subst e1 e2 e3 e5
+  dsimp only
   shrun
-theorem sh_execSetLocal (ha : a ≤ N) (hL : L ≤ N) :
-    RelS (fun s t => Sh bp k N a s t ∧ OpLt L s) (PostC bp k L) execSetLocal execSetLocal := by
+theorem getSp_ro : ∀ (s : State) (x : Int) (s' : State), exec getSp s = (.ok x, s') → s' = s := by
+  intro s x s' h
+  have e : exec getSp s = (.ok s.sp, s) := rfl
+  rw [e] at h
+  simp only [Prod.mk.injEq] at h
+  exact h.2.symm
+
+theorem stackGet_ro (i : Int) : ∀ (s : State) (x : V) (s' : State), exec (stackGet i) s = (.ok x, s') → s' = s := by
+  intro s x s' h
+  rw [exec_stackGet'] at h
+  split at h
+  · simp at h
+  · simp only [Prod.mk.injEq] at h
+    exact h.2.symm
+
+/-- a fact about the child's state carried over an action that does not change it -/
+theorem RelS.keepL {α β} {A : State → State → Prop} {Q : α → β → State → State → Prop} {P : State → Prop} {m₁ : M α} {m₂ : M β}
+    (hm : RelS A Q m₁ m₂) (hro : ∀ s x s', exec m₁ s = (.ok x, s') → s' = s) :
+    RelS (fun s t => A s t ∧ P s) (fun x y s t => Q x y s t ∧ P s) m₁ m₂ := by
+  intro s t h x s' y t' h1 h2
+  have := hro s x s' h1
+  subst this
+  exact ⟨hm _ t h.1 x _ y t' h1 h2, h.2⟩
+
+theorem sh_execSetLocal (ha : a ≤ N) (hH : H ≤ N) :
+    RelS (fun s t => Sh T0 bp k d H N a s t ∧ OpLt s) (PostC T0 bp k) execSetLocal execSetLocal := by
   unfold execSetLocal
-  refine RelS.bindV sh_opnd1_lt ?_
-  intro idx _ ⟨h1, hidx⟩
+  refine RelS.bind sh_opnd1_lt ?_
+  intro idx idx'
+  refine RelS.pre_and fun h1 => ?_
   subst h1
+  refine RelS.bind (RelS.keepL sh_getSp getSp_ro) ?_
+  intro sp sp'
+  refine RelS.conseq (A := fun s t => (a = sp ∧ a + bp = sp') ∧ (Sh T0 bp k d H N a s t ∧ (s.frames[d]!).bp + (idx : Int) < a)) ?_
+    (fun s t h => ⟨h.1.1, h.1.2, h.2⟩) (fun _ _ _ _ h => h)
+  refine RelS.pre_and fun hsp => ?_
+  obtain ⟨hsp1, hsp2⟩ := hsp
+  subst hsp1; subst hsp2
+  refine RelS.bind (RelS.keepL (sh_stackGet _ _ (by omega) (by omega)) (stackGet_ro _)) ?_
+  intro v v'
+  refine RelS.conseq (A := fun s t => v = v' ∧ (Sh T0 bp k d H N a s t ∧ (s.frames[d]!).bp + (idx : Int) < a)) ?_
+    (fun s t h => ⟨h.1.1, h.1.2, h.2⟩) (fun _ _ _ _ h => h)
+  refine RelS.pre_and fun hv => ?_
+  subst hv
+  refine RelS.bindV (sh_curFrame_lt _) ?_
+  rintro ⟨fn1, fr1, ip1, bp1, hs1, d1⟩ ⟨fn2, fr2, ip2, bp2, hs2, d2⟩ ⟨⟨e1, e2, e3, e4, e5, e6⟩, hlt⟩
+  simp only at e1 e2 e3 e4 e5 e6 hlt
+  subst e1 e2 e3 e5
+  dsimp only
   shrun
-theorem sh_execGetLocalPtr (ha : a ≤ N) (hL : L ≤ N) :
-    RelS (fun s t => Sh bp k N a s t ∧ OpLt L s) (PostC bp k L) execGetLocalPtr execGetLocalPtr := by
+theorem sh_execGetLocalPtr (ha : a ≤ N) (hH : H ≤ N) :
+    RelS (fun s t => Sh T0 bp k d H N a s t ∧ OpLt s) (PostC T0 bp k) execGetLocalPtr execGetLocalPtr := by
   unfold execGetLocalPtr
-  refine RelS.bindV sh_opnd1_lt ?_
-  intro idx _ ⟨h1, hidx⟩
+  refine RelS.bind sh_opnd1_lt ?_
+  intro idx idx'
+  refine RelS.pre_and fun h1 => ?_
   subst h1
+  refine RelS.bindV (sh_curFrame_lt _) ?_
+  rintro ⟨fn1, fr1, ip1, bp1, hs1, d1⟩ ⟨fn2, fr2, ip2, bp2, hs2, d2⟩ ⟨⟨e1, e2, e3, e4, e5, e6⟩, hlt⟩
+  simp only at e1 e2 e3 e4 e5 e6 hlt
+  subst e1 e2 e3 e5
+  dsimp only
   shrun
-theorem sh_execDefineLocal (ha : a ≤ N) (hL : L ≤ N) : RelS (Sh bp k N a) (PostC bp k L) execDefineLocal execDefineLocal := by
+theorem sh_execDefineLocal (ha : a ≤ N) (hH : H ≤ N) : RelS (Sh T0 bp k d H N a) (PostC T0 bp k) execDefineLocal execDefineLocal := by
   unfold execDefineLocal; shrun
-theorem sh_execGetFree (ha : a ≤ N) (hL : L ≤ N) : RelS (Sh bp k N a) (PostC bp k L) execGetFree execGetFree := by
+theorem sh_execGetFree (ha : a ≤ N) (hH : H ≤ N) : RelS (Sh T0 bp k d H N a) (PostC T0 bp k) execGetFree execGetFree := by
   unfold execGetFree; shrun
-theorem sh_execSetFree (ha : a ≤ N) (hL : L ≤ N) : RelS (Sh bp k N a) (PostC bp k L) execSetFree execSetFree := by
+theorem sh_execSetFree (ha : a ≤ N) (hH : H ≤ N) : RelS (Sh T0 bp k d H N a) (PostC T0 bp k) execSetFree execSetFree := by
   unfold execSetFree; shrun
-theorem sh_execGetFreePtr (ha : a ≤ N) (hL : L ≤ N) : RelS (Sh bp k N a) (PostC bp k L) execGetFreePtr execGetFreePtr := by
+theorem sh_execGetFreePtr (ha : a ≤ N) (hH : H ≤ N) : RelS (Sh T0 bp k d H N a) (PostC T0 bp k) execGetFreePtr execGetFreePtr := by
   unfold execGetFreePtr; shrun
-theorem sh_execGetGlobal (ha : a ≤ N) (hL : L ≤ N) : RelS (Sh bp k N a) (PostC bp k L) execGetGlobal execGetGlobal := by
+theorem sh_execGetGlobal (ha : a ≤ N) (hH : H ≤ N) : RelS (Sh T0 bp k d H N a) (PostC T0 bp k) execGetGlobal execGetGlobal := by
   unfold execGetGlobal; shrun
-theorem sh_execSetGlobal (ha : a ≤ N) (hL : L ≤ N) : RelS (Sh bp k N a) (PostC bp k L) execSetGlobal execSetGlobal := by
+theorem sh_execSetGlobal (ha : a ≤ N) (hH : H ≤ N) : RelS (Sh T0 bp k d H N a) (PostC T0 bp k) execSetGlobal execSetGlobal := by
   unfold execSetGlobal; shrun
-theorem sh_execSetIndex (ha : a ≤ N) (hL : L ≤ N) : RelS (Sh bp k N a) (PostC bp k L) execSetIndex execSetIndex := by
+theorem sh_execSetIndex (ha : a ≤ N) (hH : H ≤ N) : RelS (Sh T0 bp k d H N a) (PostC T0 bp k) execSetIndex execSetIndex := by
   unfold execSetIndex; shrun
 set_option maxHeartbeats 3200000 in
-theorem sh_execSliceIndex (ha : a ≤ N) (hL : L ≤ N) : RelS (Sh bp k N a) (PostC bp k L) execSliceIndex execSliceIndex := by
+theorem sh_execSliceIndex (ha : a ≤ N) (hH : H ≤ N) : RelS (Sh T0 bp k d H N a) (PostC T0 bp k) execSliceIndex execSliceIndex := by
   unfold execSliceIndex; shrun
-theorem sh_execIterInit (ha : a ≤ N) (hL : L ≤ N) : RelS (Sh bp k N a) (PostC bp k L) execIterInit execIterInit := by
+theorem sh_execIterInit (ha : a ≤ N) (hH : H ≤ N) : RelS (Sh T0 bp k d H N a) (PostC T0 bp k) execIterInit execIterInit := by
   unfold execIterInit; shrun
 set_option maxHeartbeats 3200000 in
-theorem sh_execIterNext (op : Nat) (ha : a ≤ N) (hL : L ≤ N) :
-    RelS (Sh bp k N a) (PostC bp k L) (execIterNext op) (execIterNext op) := by
+theorem sh_execIterNext (op : Nat) (ha : a ≤ N) (hH : H ≤ N) :
+    RelS (Sh T0 bp k d H N a) (PostC T0 bp k) (execIterNext op) (execIterNext op) := by
   unfold execIterNext; shrun
-theorem sh_execLoadModule (ha : a ≤ N) (hL : L ≤ N) : RelS (Sh bp k N a) (PostC bp k L) execLoadModule execLoadModule := by
+theorem sh_execLoadModule (ha : a ≤ N) (hH : H ≤ N) : RelS (Sh T0 bp k d H N a) (PostC T0 bp k) execLoadModule execLoadModule := by
   unfold execLoadModule; shrun
-theorem sh_execStoreModule (ha : a ≤ N) (hL : L ≤ N) : RelS (Sh bp k N a) (PostC bp k L) execStoreModule execStoreModule := by
+theorem sh_execStoreModule (ha : a ≤ N) (hH : H ≤ N) : RelS (Sh T0 bp k d H N a) (PostC T0 bp k) execStoreModule execStoreModule := by
   unfold execStoreModule; shrun
 
-theorem sh_execArray (ha : a ≤ N) (hL : L ≤ N) : RelS (Sh bp k N a) (PostC bp k L) execArray execArray := by
+theorem sh_execArray (ha : a ≤ N) (hH : H ≤ N) : RelS (Sh T0 bp k d H N a) (PostC T0 bp k) execArray execArray := by
   unfold execArray; shrun
-theorem sh_execClosure (ha : a ≤ N) (hL : L ≤ N) : RelS (Sh bp k N a) (PostC bp k L) execClosure execClosure := by
+theorem sh_execClosure (ha : a ≤ N) (hH : H ≤ N) : RelS (Sh T0 bp k d H N a) (PostC T0 bp k) execClosure execClosure := by
   unfold execClosure; shrun
 
-theorem sh_execGetIndex (ha : a ≤ N) (hL : L ≤ N) : RelS (Sh bp k N a) (PostC bp k L) execGetIndex execGetIndex := by
+theorem sh_execGetIndex (ha : a ≤ N) (hH : H ≤ N) : RelS (Sh T0 bp k d H N a) (PostC T0 bp k) execGetIndex execGetIndex := by
   unfold execGetIndex
   sh1; sh1; sh1
-  refine RelS.bind (RelS.forIn_upto_exit (A := Sh bp k N a)
+  refine RelS.bind (RelS.forIn_upto_exit (A := Sh T0 bp k d H N a)
       (VR := fun u u' => u = u' ∧ u.1 = none)
-      (E := fun u u' s t => ∃ r r', u.1 = some r ∧ u'.1 = some r' ∧ PostC bp k L r r' s t) _ _ _ _ _ ⟨rfl, rfl⟩ ?_) ?_
+      (E := fun u u' s t => ∃ r r', u.1 = some r ∧ u'.1 = some r' ∧ PostC T0 bp k r r' s t) _ _ _ _ _ ⟨rfl, rfl⟩ ?_) ?_
   · intro i hi b b' hb
     obtain ⟨hb1, hb2⟩ := hb
     subst hb1
@@ -324,10 +171,10 @@ theorem sh_execGetIndex (ha : a ≤ N) (hL : L ≤ N) : RelS (Sh bp k N a) (Post
     intro res _ h; subst h
     split
     · -- error: the adjusted error is thrown
-      refine RelS.bindV (B := Sh bp k N a) (VR := Eq) ?_ ?_
+      refine RelS.bindV (B := Sh T0 bp k d H N a) (VR := Eq) ?_ ?_
       · apply sh_foot; foot
       · intro e' _ h; subst h
-        refine RelS.bind (sh_failWith (L := L) e') ?_
+        refine RelS.bind (sh_failWith e' (by omega) (by omega)) ?_
         intro r r'
         exact RelS.pure (fun s t h => Or.inr ⟨_, _, rfl, rfl, r, r', rfl, rfl, h⟩)
     · exact RelS.pure (fun s t h => Or.inl ⟨_, _, rfl, rfl, ⟨rfl, rfl⟩, h⟩)
@@ -350,13 +197,13 @@ theorem sh_execGetIndex (ha : a ≤ N) (hL : L ≤ N) : RelS (Sh bp k N a) (Post
 def OpEven (s : State) : Prop := ∀ n s', exec (opnd2 1) s = (.ok n, s') → n % 2 = 0
 
 theorem sh_opnd2_even :
-    RelS (fun s t => Sh bp k N a s t ∧ OpEven s) (PQ (fun x y => x = y ∧ x % 2 = 0) (Sh bp k N a)) (opnd2 1) (opnd2 1) := by
+    RelS (fun s t => Sh T0 bp k d H N a s t ∧ OpEven s) (PQ (fun x y => x = y ∧ x % 2 = 0) (Sh T0 bp k d H N a)) (opnd2 1) (opnd2 1) := by
   intro s t h x s' y t' h1 h2
   have := sh_foot (foot_opnd2 1) s t h.1 x s' y t' h1 h2
   exact ⟨⟨this.1, h.2 x s' h1⟩, this.2⟩
 
-theorem sh_execMap (ha : a ≤ N) (hL : L ≤ N) :
-    RelS (fun s t => Sh bp k N a s t ∧ OpEven s) (PostC bp k L) execMap execMap := by
+theorem sh_execMap (ha : a ≤ N) (hH : H ≤ N) :
+    RelS (fun s t => Sh T0 bp k d H N a s t ∧ OpEven s) (PostC T0 bp k) execMap execMap := by
   unfold execMap
   refine RelS.bindV sh_opnd2_even ?_
   intro n _ ⟨h1, hn⟩
@@ -376,50 +223,50 @@ def coveredOps : List Nat :=
 /-- the covered opcodes that READ a local slot addressed by their operand -/
 def localReadOps : List Nat := [OpGetLocal, OpSetLocal, OpGetLocalPtr]
 
-theorem sh_dispatch (F : FloatOps) (op : Nat) (hcov : op ∈ coveredOps) (ha : a ≤ N) (hL : L ≤ N) :
-    RelS (fun s t => Sh bp k N a s t ∧ (op ∈ localReadOps → OpLt L s) ∧ (op = OpMap → OpEven s)) (PostC bp k L)
+theorem sh_dispatch (F : FloatOps) (op : Nat) (hcov : op ∈ coveredOps) (ha : a ≤ N) (hH : H ≤ N) :
+    RelS (fun s t => Sh T0 bp k d H N a s t ∧ (op ∈ localReadOps → OpLt s) ∧ (op = OpMap → OpEven s)) (PostC T0 bp k)
       (dispatch F op) (dispatch F op) := by
-  have weak : ∀ {m : M Ctl}, RelS (Sh bp k N a) (PostC bp k L) m m →
-      RelS (fun s t => Sh bp k N a s t ∧ (op ∈ localReadOps → OpLt L s) ∧ (op = OpMap → OpEven s)) (PostC bp k L) m m :=
+  have weak : ∀ {m : M Ctl}, RelS (Sh T0 bp k d H N a) (PostC T0 bp k) m m →
+      RelS (fun s t => Sh T0 bp k d H N a s t ∧ (op ∈ localReadOps → OpLt s) ∧ (op = OpMap → OpEven s)) (PostC T0 bp k) m m :=
     fun h => h.conseq (fun _ _ h => h.1) (fun _ _ _ _ h => h)
   simp only [coveredOps, List.mem_cons, List.not_mem_nil, or_false] at hcov
   rcases hcov with h | h | h | h | h | h | h | h | h | h | h | h | h | h | h | h | h | h | h | h | h | h | h | h | h | h | h | h | h | h | h | h | h | h | h | h <;> subst h
-  · exact weak (sh_execNoOp ha hL)
-  · exact weak (sh_execConstant ha hL)
-  · exact weak (sh_execGetGlobal ha hL)
-  · exact weak (sh_execSetGlobal ha hL)
-  · exact (sh_execGetLocal ha hL).conseq (fun _ _ h => ⟨h.1, h.2.1 (by simp [localReadOps])⟩) (fun _ _ _ _ h => h)
-  · exact (sh_execSetLocal ha hL).conseq (fun _ _ h => ⟨h.1, h.2.1 (by simp [localReadOps])⟩) (fun _ _ _ _ h => h)
-  · exact weak (sh_execGetBuiltin ha hL)
-  · exact weak (sh_execBinaryOp F ha hL)
-  · exact weak (sh_execUnary F ha hL)
-  · exact weak (sh_execEqual F _ ha hL)
-  · exact weak (sh_execEqual F _ ha hL)
-  · exact weak (sh_execJump ha hL)
-  · exact weak (sh_execJumpFalsy ha hL)
-  · exact weak (sh_execAndJump ha hL)
-  · exact weak (sh_execOrJump ha hL)
-  · exact weak (sh_execArray ha hL)
-  · exact weak (sh_execSliceIndex ha hL)
-  · exact weak (sh_execSetIndex ha hL)
-  · exact weak (sh_execNull ha hL)
-  · exact weak (sh_execPop ha hL)
-  · exact weak (sh_execGetFree ha hL)
-  · exact weak (sh_execSetFree ha hL)
-  · exact (sh_execGetLocalPtr ha hL).conseq (fun _ _ h => ⟨h.1, h.2.1 (by simp [localReadOps])⟩) (fun _ _ _ _ h => h)
-  · exact weak (sh_execGetFreePtr ha hL)
-  · exact weak (sh_execClosure ha hL)
-  · exact weak (sh_execIterInit ha hL)
-  · exact weak (sh_execIterNext _ ha hL)
-  · exact weak (sh_execIterNext _ ha hL)
-  · exact weak (sh_execIterNext _ ha hL)
-  · exact weak (sh_execLoadModule ha hL)
-  · exact weak (sh_execStoreModule ha hL)
-  · exact weak (sh_execDefineLocal ha hL)
-  · exact weak (sh_execTrue ha hL)
-  · exact weak (sh_execFalse ha hL)
-  · exact (sh_execMap ha hL).conseq (fun _ _ h => ⟨h.1, h.2.2 rfl⟩) (fun _ _ _ _ h => h)
-  · exact weak (sh_execGetIndex ha hL)
+  · exact weak (sh_execNoOp ha hH)
+  · exact weak (sh_execConstant ha hH)
+  · exact weak (sh_execGetGlobal ha hH)
+  · exact weak (sh_execSetGlobal ha hH)
+  · exact (sh_execGetLocal ha hH).conseq (fun _ _ h => ⟨h.1, h.2.1 (by simp [localReadOps])⟩) (fun _ _ _ _ h => h)
+  · exact (sh_execSetLocal ha hH).conseq (fun _ _ h => ⟨h.1, h.2.1 (by simp [localReadOps])⟩) (fun _ _ _ _ h => h)
+  · exact weak (sh_execGetBuiltin ha hH)
+  · exact weak (sh_execBinaryOp F ha hH)
+  · exact weak (sh_execUnary F ha hH)
+  · exact weak (sh_execEqual F _ ha hH)
+  · exact weak (sh_execEqual F _ ha hH)
+  · exact weak (sh_execJump ha hH)
+  · exact weak (sh_execJumpFalsy ha hH)
+  · exact weak (sh_execAndJump ha hH)
+  · exact weak (sh_execOrJump ha hH)
+  · exact weak (sh_execArray ha hH)
+  · exact weak (sh_execSliceIndex ha hH)
+  · exact weak (sh_execSetIndex ha hH)
+  · exact weak (sh_execNull ha hH)
+  · exact weak (sh_execPop ha hH)
+  · exact weak (sh_execGetFree ha hH)
+  · exact weak (sh_execSetFree ha hH)
+  · exact (sh_execGetLocalPtr ha hH).conseq (fun _ _ h => ⟨h.1, h.2.1 (by simp [localReadOps])⟩) (fun _ _ _ _ h => h)
+  · exact weak (sh_execGetFreePtr ha hH)
+  · exact weak (sh_execClosure ha hH)
+  · exact weak (sh_execIterInit ha hH)
+  · exact weak (sh_execIterNext _ ha hH)
+  · exact weak (sh_execIterNext _ ha hH)
+  · exact weak (sh_execIterNext _ ha hH)
+  · exact weak (sh_execLoadModule ha hH)
+  · exact weak (sh_execStoreModule ha hH)
+  · exact weak (sh_execDefineLocal ha hH)
+  · exact weak (sh_execTrue ha hH)
+  · exact weak (sh_execFalse ha hH)
+  · exact (sh_execMap ha hH).conseq (fun _ _ h => ⟨h.1, h.2.2 rfl⟩) (fun _ _ _ _ h => h)
+  · exact weak (sh_execGetIndex ha hH)
 
 /-- `vm.ip++ ; vm.curInsts[vm.ip]` -/
 def fetchOp : M Nat := do
@@ -429,13 +276,7 @@ def fetchOp : M Nat := do
 theorem step_eq (F : FloatOps) : step F = (fetchOp >>= fun op => noteTrace op >>= fun _ => dispatch F op) := by
   simp only [step, fetchOp, bind_assoc]
 
-/-- what is asked of the instruction about to be executed by the child: it is a covered opcode;
-    if it reads a local slot, its operand is below `L` (`NumLocals` of the function); if it is MAP, its
-    operand (keys + values) is even -/
-def StepOk (L : Nat) (s : State) : Prop :=
-  ∀ op s1, exec fetchOp s = (.ok op, s1) → op ∈ coveredOps ∧ (op ∈ localReadOps → OpLt L s1) ∧ (op = OpMap → OpEven s1)
-
-theorem sh_fetchOp : RelS (Sh bp k N a) (PQ Eq (Sh bp k N a)) fetchOp fetchOp := by
+theorem sh_fetchOp : RelS (Sh T0 bp k d H N a) (PQ Eq (Sh T0 bp k d H N a)) fetchOp fetchOp := by
   unfold fetchOp
   refine RelS.bindV (sh_bumpIp 1) ?_
   intro _ _ _
@@ -444,22 +285,20 @@ theorem sh_fetchOp : RelS (Sh bp k N a) (PQ Eq (Sh bp k N a)) fetchOp fetchOp :=
   subst h
   exact sh_foot (foot_instAt _)
 
-theorem OpLt_noteTrace (op : Nat) (s s' : State) (r : Unit) (h : OpLt L s) (e : exec (noteTrace op) s = (.ok r, s')) :
-    OpLt L s' := by
-  have hv : view s' = view s := by
-    have : ∃ tr st, exec (noteTrace op) s = (.ok (), { s with trace := tr, steps := st }) := by
-      unfold noteTrace
-      simp only [exec_bind, exec_getS]
-      split
-      · exact ⟨_, _, rfl⟩
-      · exact ⟨_, _, rfl⟩
-    obtain ⟨tr, st, e'⟩ := this
-    rw [e'] at e
-    simp only [Prod.mk.injEq, Except.ok.injEq] at e
-    rw [← e.2]
-    rfl
+theorem OpLt_noteTrace (op : Nat) (s s' : State) (r : Unit) (h : OpLt s) (e : exec (noteTrace op) s = (.ok r, s')) :
+    OpLt s' := by
+  have : ∃ tr st, exec (noteTrace op) s = (.ok (), { s with trace := tr, steps := st }) := by
+    unfold noteTrace
+    simp only [exec_bind, exec_getS]
+    split
+    · exact ⟨_, _, rfl⟩
+    · exact ⟨_, _, rfl⟩
+  obtain ⟨tr, st, e'⟩ := this
+  rw [e'] at e
+  simp only [Prod.mk.injEq, Except.ok.injEq] at e
+  obtain ⟨_, rfl⟩ := e
   intro idx s'' e1
-  have d := (foot_opnd1 1).dep s' s hv
+  have d := (foot_opnd1 1).dep { s with trace := tr, steps := st } s rfl
   rw [e1] at d
   rcases e2 : exec (opnd1 1) s with ⟨r2, s2⟩
   rw [e2] at d
@@ -488,93 +327,6 @@ theorem OpEven_noteTrace (op : Nat) (s s' : State) (r : Unit) (h : OpEven s) (e 
   simp only at d
   exact h n s2 (by rw [e2, ← d.1])
 
-/-- **frame_shift_partial.**  One instruction of the child (frame 0, base 0) and one instruction of
-    the parent inside the callee's frame (frame k, base bp), started in `ShB`-related states, when the
-    instruction is a covered opcode: if both `step`s end normally, either both continue and the states
-    are `ShB`-related again, or the child's loop returns with `vm.err` set (the error was raised inside
-    the callee, which has no handler: the child's `Run` returns it to the Go caller). -/
-theorem frame_shift_partial (F : FloatOps) :
-    RelS (fun s t => ShB bp k L s t ∧ StepOk L s) (PostC bp k L) (step F) (step F) := by
-  intro s t ⟨⟨N, a, h, ha, hL⟩, hok⟩ r s' r' t' h1 h2
-  rw [step_eq, exec_bind] at h1 h2
-  rcases e1 : exec fetchOp s with ⟨r1, s1⟩
-  rcases e2 : exec fetchOp t with ⟨r2, t1⟩
-  rw [e1] at h1
-  rw [e2] at h2
-  cases r1 with
-  | error e => simp at h1
-  | ok op =>
-    cases r2 with
-    | error e => simp at h2
-    | ok op' =>
-      simp only at h1 h2
-      obtain ⟨hop, hs1⟩ := sh_fetchOp s t h op s1 op' t1 e1 e2
-      subst hop
-      obtain ⟨hcov, hloc, hev⟩ := hok op s1 e1
-      rw [exec_bind] at h1 h2
-      rcases e3 : exec (noteTrace op) s1 with ⟨r3, s2⟩
-      rcases e4 : exec (noteTrace op) t1 with ⟨r4, t2⟩
-      rw [e3] at h1
-      rw [e4] at h2
-      cases r3 with
-      | error e => simp at h1
-      | ok u =>
-        cases r4 with
-        | error e => simp at h2
-        | ok u' =>
-          simp only at h1 h2
-          have hs2 := (sh_noteTrace op s1 t1 hs1 u s2 u' t2 e3 e4).2
-          exact sh_dispatch F op hcov ha hL s2 t2 ⟨hs2, fun hl => OpLt_noteTrace op s1 s2 u (hloc hl) e3, fun hm => OpEven_noteTrace op s1 s2 u (hev hm) e3⟩ r s' r' t' h1 h2
-
-/-! ### several instructions -/
-
-/-- `n` iterations of the loop body (no abort check): `none` = a Go panic / outside the model -/
-def runSteps (F : FloatOps) : Nat → State → Option (Ctl × State)
-  | 0, s => some (.next, s)
-  | n+1, s =>
-    match exec (step F) s with
-    | (.ok .next, s') => runSteps F n s'
-    | (.ok .ret, s') => some (.ret, s')
-    | (.error _, _) => none
-
-/-- every instruction the child executes during its next `n` steps is a covered one -/
-def CoveredRun (F : FloatOps) (L : Nat) : Nat → State → Prop
-  | 0, _ => True
-  | n+1, s => StepOk L s ∧ ∀ s', exec (step F) s = (.ok .next, s') → CoveredRun F L n s'
-
-/-- **steps_shift_partial.**  `frame_shift_partial` iterated: after any number of covered instructions,
-    if neither VM panicked or left the model, both are still running in `ShB`-related states, or the
-    child has stopped with `vm.err` set. -/
-theorem steps_shift_partial (F : FloatOps) (n : Nat) : ∀ s t, ShB bp k L s t → CoveredRun F L n s →
-    ∀ r s' r' t', runSteps F n s = some (r, s') → runSteps F n t = some (r', t') → PostC bp k L r r' s' t' := by
-  induction n with
-  | zero =>
-    intro s t h _ r s' r' t' h1 h2
-    simp only [runSteps, Option.some.injEq, Prod.mk.injEq] at h1 h2
-    obtain ⟨rfl, rfl⟩ := h1
-    obtain ⟨rfl, rfl⟩ := h2
-    exact Or.inl ⟨rfl, rfl, h⟩
-  | succ n ih =>
-    intro s t h hc r s' r' t' h1 h2
-    obtain ⟨hok, hnext⟩ := hc
-    simp only [runSteps] at h1 h2
-    rcases e1 : exec (step F) s with ⟨r1, s1⟩
-    rcases e2 : exec (step F) t with ⟨r2, t1⟩
-    rw [e1] at h1
-    rw [e2] at h2
-    cases r1 with
-    | error e => simp at h1
-    | ok c1 =>
-      cases r2 with
-      | error e => simp at h2
-      | ok c2 =>
-        have hp := frame_shift_partial F s t ⟨h, hok⟩ c1 s1 c2 t1 e1 e2
-        rcases hp with ⟨rfl, rfl, hsh⟩ | ⟨rfl, herr⟩
-        · simp only at h1 h2
-          exact ih s1 t1 hsh (hnext s1 e1) r s' r' t' h1 h2
-        · simp only [Option.some.injEq, Prod.mk.injEq] at h1
-          obtain ⟨rfl, rfl⟩ := h1
-          exact Or.inr ⟨rfl, herr⟩
 
 end
 end UgoVerif.Proofs.Shift
